@@ -9,7 +9,7 @@ variables; the oracle is the lineage model of the statement.
 import importlib
 
 from redun import Handle
-from vp.core import SL, Condition, choose, guard, native
+from vp.core import SL, Condition, choose, excluded, guard, native
 
 RS = importlib.import_module("redun.scheduler")
 db = importlib.import_module("redun.backends.db")
@@ -52,8 +52,19 @@ def _sched():
     return _STATE["sched"]
 
 
-def run_history(ops, pick):
-    """ops: list of op names; pick(n, label) supplies the operands.  Returns (ok, detail)."""
+FID_INVALID = "operation-on-invalid-state-leaves-lineage-inconsistent"
+
+
+def run_history(ops, pick, skip_listed=False):
+    """ops: list of op names; pick(n, label) supplies the operands.  Returns (ok, detail, finding id or None).
+
+    Listed finding: an operation applied to a state that is recorded but INVALID (advancing from it, or rolling back to it).
+    With skip_listed the history is abandoned (accepted) as soon as such an operation occurs."""
+    out = _run_history(ops, pick, skip_listed)
+    return out
+
+
+def _run_history(ops, pick, skip_listed):
     sched = _sched()
     b = sched.backend
     _STATE["n"] += 1
@@ -63,9 +74,13 @@ def run_history(ops, pick):
     valid = {}  # model: hash -> bool (absent = never recorded)
     edges = set()
     trace = []
+    touched_invalid = [False]
 
     def h(s):
         return s.__handle__.hash
+
+    def is_invalid(s):
+        return valid.get(h(s)) is False
 
     def derive(parents, child):
         existing = [s for s in states if h(s) == h(child)]
@@ -91,6 +106,10 @@ def run_history(ops, pick):
 
     for op in ops:
         s = states[pick(len(states), "state")]
+        if is_invalid(s):
+            touched_invalid[0] = True
+            if skip_listed:
+                return True, "history applies an operation to an invalid state (listed finding assumed away)", None
         if op in ("fork_a", "fork_b"):
             trace.append("%s(%d)" % (op, states.index(s)))
             derive([s], s.fork(op[-1]))
@@ -99,6 +118,10 @@ def run_history(ops, pick):
             derive([s], s.apply_call("call-" + op[-2:]))
         elif op == "merge":
             t = states[pick(len(states), "state2")]
+            if is_invalid(t):
+                touched_invalid[0] = True
+                if skip_listed:
+                    return True, "history applies an operation to an invalid state (listed finding assumed away)", None
             trace.append("merge(%d,%d)" % (states.index(s), states.index(t)))
             child = s.apply_call("merge-%s" % h(t)[:6])
             derive([s, t], child)
@@ -121,7 +144,8 @@ def run_history(ops, pick):
             want = valid.get(h(st), False)
             if got != want:
                 return False, "after %s: state %d (%s) is %s, the lineage model says %s" % (
-                    " ; ".join(trace), states.index(st), h(st)[:8], "valid" if got else "invalid", "valid" if want else "invalid")
+                    " ; ".join(trace), states.index(st), h(st)[:8], "valid" if got else "invalid", "valid" if want else "invalid"), (
+                    FID_INVALID if touched_invalid[0] else None)
     # a cached result containing a handle state is replayed only if that state is valid
     from vp.harness.schedprog import leaf
     for st in states:
@@ -137,8 +161,9 @@ def run_history(ops, pick):
             sched.backend.check_cache = saved
         if cached != want:
             return False, "after %s: a cached result containing state %d (%s per the model) is %s" % (
-                " ; ".join(trace), states.index(st), "valid" if want else "invalid", "replayed" if cached else "treated as a miss")
-    return True, "ok"
+                " ; ".join(trace), states.index(st), "valid" if want else "invalid", "replayed" if cached else "treated as a miss"), (
+                FID_INVALID if touched_invalid[0] else None)
+    return True, "ok", None
 
 
 def c25_history(k: int) -> bool:
@@ -148,7 +173,8 @@ def c25_history(k: int) -> bool:
     def body():
         n, first = SL()
         ops = [OPS[f] for f in first] + [OPS[choose(len(OPS), "op")] for _ in range(n - len(first))]
-        return native(lambda: run_history(ops, choose)[0])
+        skip = excluded(FID_INVALID)
+        return native(lambda: run_history(ops, choose, skip)[0])
     return guard(body, k=k)
 
 
@@ -233,5 +259,5 @@ def replay(cond, args, extra):
     # the op choices are interleaved with operand choices in creation order: ops first (they are chosen up front)
     ops = [OPS[f] for f in first] + [OPS[c[1]] for c in items[:nops]]
     it = iter(items[nops:])
-    ok, detail = run_history(ops, lambda m, label: min(next(it)[1], m - 1))
-    return (not ok), detail, None
+    ok, detail, fid = run_history(ops, lambda m, label: min(next(it, (None, 0))[1], m - 1))
+    return (not ok), detail, fid
